@@ -770,4 +770,166 @@ theorem hs_ref_insertCol (m : Mode) (t : TD α) (h : t.Inv) (i : Nat) (it : Iter
   · rw [if_neg hcond] at hg2
     cases hg2
 
+/-! ### the remaining operations against the rows-of-cells model -/
+
+theorem hs_ref_fromVec (m : Mode) (t : TD α) (c r : Nat) (v : List α) :
+    gstep t.grid (.fromVec c r v) = some (hstep m t (.fromVec c r v)).grid := by
+  show (if specShapeOk c r ∧ c * r = v.length then some (toRows c v) else some t.grid)
+    = some (match TD.fromVec c r v with | .ok t' => t' | .error _ => t).grid
+  have hsp : specShapeOk c r = true ↔ shapeOk c r := by
+    unfold specShapeOk shapeOk
+    exact decide_eq_true_iff
+  by_cases hs : shapeOk c r ∧ c * r = v.length
+  · obtain ⟨t', e, _, hc, _, hd⟩ := (C20_from_vec c r v).1 hs
+    rw [if_pos ⟨hsp.2 hs.1, hs.2⟩, e]
+    show _ = some (toRows t'.numCols t'.data)
+    rw [hc, hd]
+  · rw [if_neg (fun hc => hs ⟨hsp.1 hc.1, hc.2⟩), (C20_from_vec c r v).2 hs]
+
+theorem hs_ref_swapDimensions (m : Mode) (t : TD α) (h : t.Inv) :
+    gstep t.grid .swapDimensions = some (hstep m t .swapDimensions).grid := by
+  show some (toRows t.grid.length t.grid.flatten) = some (toRows t.numRows t.data)
+  rw [h.grid_length, ← h.data_eq_flatten_grid]
+
+theorem hs_ref_swap (m : Mode) (t : TD α) (h : t.Inv) (c1 r1 c2 r2 : Nat) :
+    gstep t.grid (.swap c1 r1 c2 r2) = some (hstep m t (.swap c1 r1 c2 r2)).grid := by
+  show (if c1 < (t.grid.head?.map List.length).getD 0 ∧ c2 < (t.grid.head?.map List.length).getD 0 ∧
+        r1 < t.grid.length ∧ r2 < t.grid.length then
+      some (gridPerm t.grid (swapCellG (c1, r1) (c2, r2))) else some t.grid)
+    = some (t.withData (t.swap m c1 r1 c2 r2)).grid
+  rw [hs_headC t h, h.grid_length]
+  by_cases hr : c1 < t.numCols ∧ c2 < t.numCols ∧ r1 < t.numRows ∧ r2 < t.numRows
+  · have hcw := h.cols_word
+    have hrw := h.rows_word
+    rw [if_pos hr, (C13_swap_owned m t h c1 r1 c2 r2 ⟨by omega, by omega, by omega, by omega⟩).1 hr,
+      hs_gridPerm t h _ (hs_swapCellG_cells t hr)]
+    exact congrArg some (hs_grid_gather t h _ (hs_swapCellG_cells t hr)).symm
+  · rw [if_neg hr, hs_swap_reject m t c1 r1 c2 r2 hr]
+    rfl
+
+theorem hs_ref_copyFromSlice (m : Mode) (t : TD α) (h : t.Inv) (src : List α) :
+    gstep t.grid (.copyFromSlice src) = some (hstep m t (.copyFromSlice src)).grid := by
+  show (if (t.grid.head?.map List.length).getD 0 * t.grid.length = src.length then
+      some (toRows ((t.grid.head?.map List.length).getD 0) src) else some t.grid)
+    = some (t.withData (t.copyFromSlice src)).grid
+  rw [hs_headC t h, h.grid_length, ← h.len]
+  unfold TD.copyFromSlice
+  by_cases hl : t.data.length = src.length
+  · rw [if_pos hl, if_neg (by simpa using hl)]
+    rfl
+  · rw [if_neg hl, if_pos hl]
+    rfl
+
+theorem hs_ref_translate (m : Mode) (t : TD α) (h : t.Inv) (mc mr : Nat) :
+    gstep t.grid (.translate mc mr) = some (hstep m t (.translate mc mr)).grid := by
+  show (if mc ≤ (t.grid.head?.map List.length).getD 0 ∧ mr ≤ t.grid.length then
+      some (gridPerm t.grid (translateG ((t.grid.head?.map List.length).getD 0) t.grid.length mc mr)) else some t.grid)
+    = some (t.withData (t.acc.translateWithWrap m (t.getUncheckedRow m) t.data (mc, mr))).grid
+  rw [hs_headC t h, h.grid_length]
+  by_cases hm : mc ≤ t.numCols ∧ mr ≤ t.numRows
+  · have hcells := (C15_maps_bijective t.numCols t.numRows mc mr _ (List.mem_cons_self ..)).1
+    rw [if_pos hm, C15_translate m t.asView t.data (C02_owned_as_view t h).1 t.acc (C13_acc_owned t h) _
+      (hs_getUncheckedRow m t h) (mc, mr) hm, hs_gridPerm t h _ hcells]
+    exact congrArg some (hs_grid_gather t h _ hcells).symm
+  · rw [if_neg hm, C15_translate_reject m t.acc _ t.data (mc, mr) hm]
+    rfl
+
+/-- the key row of `sort_by_row` is the grid's row -/
+theorem hs_row_key (t : TD α) (h : t.Inv) (row : Nat) (hr : row < t.numRows) :
+    t.grid[row]?.getD [] = readWin t.data (t.asView.rowWin row) := by
+  have hC : 0 < t.numCols := h.cols_pos hr
+  have hdiv : t.data.length / t.numCols = t.numRows := by
+    rw [h.len, Nat.mul_div_cancel_left _ hC]
+  unfold TD.grid toRows
+  rw [List.getElem?_map, hdiv, List.getElem?_range hr]
+  show (t.data.drop (row * t.numCols)).take t.numCols = (t.data.drop (0 + row * t.numCols + 0)).take t.numCols
+  rw [Nat.zero_add, Nat.add_zero]
+
+/-- the key column of `sort_by_col` is the grid's column -/
+theorem hs_col_key (t : TD α) (h : t.Inv) (col : Nat) (hc : col < t.numCols) :
+    t.grid.filterMap (·[col]?) = (List.range t.numRows).filterMap fun r => t.data[t.asView.pos col r]? := by
+  have hdiv : t.data.length / t.numCols = t.numRows := by
+    rw [h.len, Nat.mul_div_cancel_left _ (by omega)]
+  unfold TD.grid toRows
+  rw [List.filterMap_map, hdiv]
+  apply filterMap_congr_mem
+  intro r _
+  show ((t.data.drop (r * t.numCols)).take t.numCols)[col]? = t.data[0 + r * t.numCols + col]?
+  rw [List.getElem?_take, if_pos hc, List.getElem?_drop, Nat.zero_add]
+
+theorem hs_ref_sortByRow (m : Mode) (t : TD α) (h : t.Inv) (le : α → α → Bool) (row : Nat) :
+    gstep t.grid (.sortByRow le row) = some (hstep m t (.sortByRow le row)).grid := by
+  show (if row < t.grid.length then
+      some (gridPerm t.grid (sortColsG (stablePerm le (t.grid[row]?.getD [])))) else some t.grid)
+    = some (t.withData (t.acc.sortByRow (t.indexRow m) t.data le row)).grid
+  rw [h.grid_length]
+  have hv := (C02_owned_as_view t h).1
+  have hs := C16_sort_by_row t.asView t.data hv t.acc (C13_acc_owned t h) (t.indexRow m) (hs_indexRow m t h) le row
+  by_cases hr : row < t.numRows
+  · rw [if_pos hr, hs.1 hr, hs_row_key t h row hr]
+    have hin := VW.rowWin_inside hv hr
+    have hl : (readWin t.data (t.asView.rowWin row)).length = t.numCols := by
+      simp only [readWin, List.length_take, List.length_drop]
+      have : (t.asView.rowWin row).len = t.numCols := rfl
+      omega
+    have hp := stablePerm_perm le (readWin t.data (t.asView.rowWin row))
+    rw [hl] at hp
+    have hb := (C16_cols_bijective t.numCols t.numRows _ hp).1
+    have hcells : ∀ c r, c < t.numCols → r < t.numRows →
+        (sortColsG (stablePerm le (readWin t.data (t.asView.rowWin row))) (c, r)).1 < t.numCols ∧
+        (sortColsG (stablePerm le (readWin t.data (t.asView.rowWin row))) (c, r)).2 < t.numRows :=
+      fun c r hc hr' => ⟨(hb c r hc hr').1, by rw [(hb c r hc hr').2]; exact hr'⟩
+    rw [hs_gridPerm t h _ hcells]
+    exact congrArg some (hs_grid_gather t h _ hcells).symm
+  · rw [if_neg hr, hs.2 hr]
+    rfl
+
+theorem hs_ref_sortByCol (m : Mode) (t : TD α) (h : t.Inv) (le : α → α → Bool) (col : Nat) :
+    gstep t.grid (.sortByCol le col) = some (hstep m t (.sortByCol le col)).grid := by
+  show (if col < (t.grid.head?.map List.length).getD 0 then
+      some (gridPerm t.grid (sortRowsG (stablePerm le (t.grid.filterMap (·[col]?))))) else some t.grid)
+    = some (t.withData (t.acc.sortByCol (t.col m)
+        (fun b r1 r2 => ({ t with data := b } : TD α).swapRows m r1 r2) t.data le col)).grid
+  rw [hs_headC t h]
+  have hv := (C02_owned_as_view t h).1
+  have hcw := h.cols_word
+  have hcol : ∀ c, c < t.asView.numCols → ∃ it, t.col m c = .ok it ∧ it.WF t.asView.numRows t.data.length ∧
+      it.abs t.asView.numRows = (List.range t.asView.numRows).map fun r => t.asView.pos c r := by
+    intro c hc
+    have hc' : c < t.numCols := hc
+    obtain ⟨it, e, hwf, habs⟩ := (C09_col_owned m t h c (by omega)).1 hc'
+    refine ⟨it, e, hwf, ?_⟩
+    show it.abs t.numRows = _
+    rw [habs]
+    apply List.map_congr_left
+    intro r _
+    exact ((C02_owned_as_view t h).2 c r).symm
+  have hsw : SwapRowsSpec t.asView t.data.length
+      (fun b r1 r2 => ({ t with data := b } : TD α).swapRows m r1 r2) := by
+    intro b r1 r2 hb hr1 hr2
+    have hbi := h.with_data b hb
+    have e := (hs_swapRows m _ hbi r1 r2).1 ⟨hr1, hr2⟩
+    have hview : ({ t with data := b } : TD α).asView = t.asView := by
+      simp only [TD.asView, TD.win, hb]
+    rw [hview] at e
+    exact e
+  have hs := C17_sort_by_col t.asView t.data hv t.acc (C13_acc_owned t h) (t.col m) hcol _ hsw le col
+  by_cases hc : col < t.numCols
+  · rw [if_pos hc, hs.1 hc, hs_col_key t h col hc]
+    have hp := stablePerm_perm le ((List.range t.asView.numRows).filterMap fun r => t.data[t.asView.pos col r]?)
+    rw [col_keys_length t.asView t.data hv hc] at hp
+    have hb := (C17_rows_bijective t.numCols t.numRows _ hp).1
+    have hcells : ∀ c r, c < t.numCols → r < t.numRows →
+        (sortRowsG (stablePerm le ((List.range t.asView.numRows).filterMap fun r => t.data[t.asView.pos col r]?)) (c, r)).1 < t.numCols ∧
+        (sortRowsG (stablePerm le ((List.range t.asView.numRows).filterMap fun r => t.data[t.asView.pos col r]?)) (c, r)).2 < t.numRows :=
+      fun c r hc' hr => ⟨by rw [(hb c r hc' hr).2]; exact hc', (hb c r hc' hr).1⟩
+    have e1 := hs_gridPerm t h _ hcells
+    have e2 := hs_grid_gather t h _ hcells
+    show some (gridPerm t.grid (sortRowsG (stablePerm le
+      ((List.range t.asView.numRows).filterMap fun r => t.data[t.asView.pos col r]?)))) = _
+    rw [e1]
+    exact congrArg some e2.symm
+  · rw [if_neg hc, hs.2 hc]
+    rfl
+
 end Toodee
